@@ -83,7 +83,8 @@ class FileScanHelper:
         if use_standard_in:
             assert not in_fix_mode, "Standard-in cannot be used with fix mode."
             POGGER.debug("Scanning from: (stdin)")
-            self.__scan_from_stdin(args, string_to_scan)
+            if not self.__scan_from_stdin(args, string_to_scan):
+                did_fail_any_file = True
 
         else:
             POGGER.debug("Scanning from: $", files_to_scan)
@@ -107,9 +108,10 @@ class FileScanHelper:
 
     def __scan_from_stdin(
         self, args: argparse.Namespace, string_to_scan: Optional[str]
-    ) -> None:
+    ) -> bool:
         temporary_file = None
         scan_exception = None
+        did_succeed = False
         scan_id = "stdin" if string_to_scan is None else "in-memory"
         try:
             if args.x_test_stdin_fault:
@@ -126,7 +128,7 @@ class FileScanHelper:
                     for line in sys.stdin:
                         outfile.write(line)
 
-            self.__scan_specific_file(temporary_file, scan_id)
+            did_succeed = self.__scan_specific_file(temporary_file, scan_id)
 
         except IOError as this_exception:
             scan_exception = this_exception
@@ -141,6 +143,7 @@ class FileScanHelper:
                 ) from scan_exception
             except IOError as this_exception:
                 self.__handle_scan_error(scan_id, this_exception)
+        return did_succeed
 
     def __scan_specific_file(self, next_file: str, next_file_name: str) -> bool:
         try:
